@@ -219,6 +219,25 @@ func materialise(o *c09Obj) (*sharedObj, string) {
 	case "mapped":
 		s.call = parserCalls(buildC09Mapped())
 		s.expect = func(kind, in string) any { return parserCalls(buildC09Mapped())(kind, in) }
+	case "fresh-sexpr":
+		// a parser with static types built for this workload alone, so that derived parsers (ParserForProduction)
+		// are used for the first time while other goroutines use the parent
+		mk := func() func(kind, in string) any {
+			parse, sub, ebnfText := fixtures.SexprCalls()
+			return func(kind, in string) any {
+				switch kind {
+				case "sub-parse":
+					ast, err := sub("(1 (2) x)")
+					return callResult{AST: ast, Err: errStr(err)}
+				case "ebnf-string":
+					return callResult{Text: ebnfText()}
+				}
+				ast, err := parse(in)
+				return callResult{AST: ast, Err: errStr(err)}
+			}
+		}
+		s.call = mk()
+		s.expect = func(kind, in string) any { return mk()(kind, in) }
 	case "ebnf":
 		f := func(kind, in string) any {
 			ast, err := ebnf.ParseString(in)
@@ -514,6 +533,9 @@ func TestC09(t *testing.T) {
 				o.Fixture = f.Name
 				o.Inputs = append(o.Inputs, f.Samples...)
 				o.Inputs = append(o.Inputs, f.Samples[0][:len(f.Samples[0])/2])
+			case k == 9 && rapid.Bool().Draw(t, "freshsexpr"):
+				o.Kind = "fresh-sexpr"
+				o.Inputs = []string{`1 (2 3) 4`, `(define (f x) (g x "s" #y))`, `[a : 1] #(1 2)`, `(1 (2`, ``}
 			default:
 				o.Kind = "mapped"
 				o.Inputs = c09MappedInputs
@@ -530,6 +552,8 @@ func TestC09(t *testing.T) {
 				return []string{"drain"}
 			case "ebnf":
 				return []string{"string"}
+			case "fresh-sexpr":
+				return []string{"string", "sub-parse", "sub-parse", "ebnf-string", "string"}
 			case "fixture":
 				return []string{"string", "bytes", "reader", "lex", "ebnf-string", "string-trailing", "string-trace", "sub-parse", "ebnf-string", "lex-past-eof", "lex-past-eof"}
 			}
